@@ -179,6 +179,7 @@ package bill
 //@   ensures [stamps] err == nil && cd != nil ==> (forall i int :: 0 <= i && i < len(cd.Stamps) ==> stampFor(cd.Stamps[i], pre.Stamps))
 //@   ensures [supplied] forall j int :: 0 <= j && j < len(pre.Stamps) ==> (exists k int :: 0 <= k && k < len(o.Stamps) && o.Stamps[k] == pre.Stamps[j])
 //@   ensures [nostamps] cd == nil ==> err == nil && len(pre.Stamps) == 0
+//@   ensures [accepted] cd != nil && (len(cd.Types) == 0 || cbc.keyAmong(o.Type, cd.Types)) && (!cd.ReasonRequired || old(pre.Reason) != "") && (forall i int :: 0 <= i && i < len(cd.Stamps) ==> stampFor(cd.Stamps[i], o.Stamps)) ==> err == nil
 //@   loop 1 invariant pre.Reason == old(pre.Reason)
 //@   loop 1 invariant forall i int :: 0 <= i && i < idx ==> stampFor(cd.Stamps[i], pre.Stamps)
 //@   loop 1 invariant forall j int :: 0 <= j && j < len(pre.Stamps) ==> pre.Stamps[j] != nil && (exists k int :: 0 <= k && k < len(o.Stamps) && o.Stamps[k] == pre.Stamps[j])
